@@ -74,10 +74,10 @@ func c06Far(w *W) {
 		}
 	}
 	k := atoi(w.Shard.Arg)
-	starts := [][2]int{{300, 1}, {241, 1}, {9998, 12}, {2024, 5}, {1582, 9}, {5000, 7}, {2033, 11}, {1000, 3}, {7777, 10}, {260, 12}, {3333, 2}, {4000, 6}, {9000, 1}, {600, 8}, {2500, 4}, {8000, 9}}
-	jumps := []int{12368, -12368, 30000, -30000, 120000, -120000}
+	starts := [][2]int{{241, 1}, {9998, 12}, {300, 1}, {2024, 5}, {1582, 9}, {5000, 7}, {2033, 11}, {1000, 3}, {7777, 10}, {260, 12}, {3333, 2}, {4000, 6}, {9000, 1}, {600, 8}, {2500, 4}, {8000, 9}}
+	jumps := []int{12368, -12368, 30000, -30000, 120000, -120000, 120001, -120001, 123400, -123400}
 	if w.Thorough() {
-		jumps = []int{1000, -1000, 12368, -12368, 24000, -24000, 30000, -30000, 60000, -60000, 120000, -120000}
+		jumps = []int{1000, -1000, 12368, -12368, 24000, -24000, 30000, -30000, 60000, -60000, 120000, -120000, 120001, -120001, 121500, -121500, 123400, -123400}
 	}
 	for _, st := range starts[k%len(starts) : k%len(starts)+1] {
 		i0, ok := pos[fmt.Sprintf("%d/%d", st[0], st[1])]
